@@ -88,9 +88,15 @@ func main() {
 		sc := bufio.NewScanner(os.Stdin)
 		sc.Buffer(make([]byte, 1<<20), 1<<28)
 		for sc.Scan() {
-			out.WriteString(runOp(sc.Text()))
+			res := runOp(sc.Text())
+			out.WriteString(res)
 			out.WriteByte('\n')
 			out.Flush()
+			if res == "hang" || strings.HasPrefix(res, "ORACLE-FAIL:hang") {
+				// the operation is still running in a leaked goroutine (possibly spinning and allocating):
+				// leave; exit code 7 asks the caller to continue with the remaining lines in a fresh process
+				os.Exit(7)
+			}
 		}
 	default:
 		fmt.Fprintln(os.Stderr, "unknown mode", os.Args[1])
